@@ -94,6 +94,11 @@ func refactorSpecials(r *Rng) []refactorSpecial {
 		uniA, uniB := "ÄnderungsÜbersichtGrößenÄÖÜäöüßßßß", "Übersicht"
 		add("rename-non-ascii-named-function-with-closure", body(uniA, "step", "n"), body(uniB, "next", "depth"), map[string]string{uniA: uniB})
 	}
+	// opposite test with exchanged arms where the comparison is kept in a variable and branched on in a
+	// later block (after a loop / after another if)
+	add("flip-of-held-comparison",
+		fmt.Sprintf("func Held(a, b int, xs []int) int {\n\tok := a >= b\n\tt := 0\n\tfor i := 0; i < len(xs); i++ {\n\t\tt += xs[i]\n\t}\n\tif ok {\n\t\treturn t + %d\n\t}\n\treturn t - 1\n}\n\nfunc HeldStr(s string, a, b int) int {\n\tlater := s > \"m\"\n\tt := a\n\tif b > %d {\n\t\tt += b\n\t}\n\tif later {\n\t\treturn t * 2\n\t}\n\treturn t + 1\n}\n", k, k2),
+		fmt.Sprintf("func Held(a, b int, xs []int) int {\n\tok := a < b\n\tt := 0\n\tfor i := 0; i < len(xs); i++ {\n\t\tt += xs[i]\n\t}\n\tif ok {\n\t\treturn t - 1\n\t}\n\treturn t + %d\n}\n\nfunc HeldStr(s string, a, b int) int {\n\tlater := s <= \"m\"\n\tt := a\n\tif b > %d {\n\t\tt += b\n\t}\n\tif later {\n\t\treturn t + 1\n\t}\n\treturn t * 2\n}\n", k, k2), nil)
 	// string and large-integer literals replaced (default policy abstracts them)
 	add("literals-defined-types",
 		fmt.Sprintf("type Level int\n\nfunc Tag(a Level) string {\n\tif a > %d {\n\t\treturn \"high-%d\"\n\t}\n\treturn \"low\"\n}\n", 1000+k, k),
